@@ -23,6 +23,9 @@ MODELS = {
                           "renounced) x every privileged message variant x 5 sender roles x funds attached or not"},
     "MC_Exec": {"module": "MC_Exec", "quick": "MC_Exec.cfg", "thorough": "MC_Exec.cfg", "workers": 2, "timeout_quick": 120,
                 "sample": "CosmWasm dispatch/rollback semantics (Cw.tla) over the response shapes of 8 entry points, a failure injected at every dispatch"},
+    "MC_Math": {"module": "MC_Math", "quick": "MC_Math.cfg", "thorough": "MC_Math_thorough.cfg", "workers": 8, "timeout_quick": 300, "timeout_thorough": 1800,
+                "sample": "formula lemmas on a grid (reserves, offer, supply, fee, tolerance): product monotone, round trip never profits, mint/withdraw "
+                          "never dilute, tolerance predicates monotone, proportional deposits accepted, penalty bound/formula/decay/shares"},
     "MC_Pool": {"module": "MC_Pool", "quick": "MC_Pool.cfg", "thorough": "MC_Pool_thorough.cfg",
                 "workers": 10, "timeout_quick": 600, "timeout_thorough": 3000,
                 "sample": "two constant-product pools sharing a denom, exact integer formulas with fees; deposits, single-asset "
@@ -85,23 +88,23 @@ FAMILIES["pool"] = {"drivers": [{"name": "pool", "spec": "Trace_Pool"}, {"name":
 PROPS = {
     "C20": {"level": "fault_enumeration", "models": ["MC_Exec"], "families": ["fault", "farm", "pool", "epoch", "auth"]},
     "C01": {"level": "model_checking", "models": ["MC_Pool"], "families": ["pool"]},
-    "C02": {"level": "model_checking", "models": ["MC_Pool"], "families": ["pool"]},
-    "C03": {"level": "model_checking", "models": ["MC_Pool"], "families": ["pool"]},
-    "C04": {"level": "model_checking", "models": ["MC_Pool"], "families": ["pool"]},
+    "C02": {"level": "model_checking", "models": ["MC_Pool", "MC_Math"], "families": ["pool"]},
+    "C03": {"level": "model_checking", "models": ["MC_Pool", "MC_Math"], "families": ["pool"]},
+    "C04": {"level": "model_checking", "models": ["MC_Pool", "MC_Math"], "families": ["pool"]},
     "C12": {"level": "model_checking", "models": [], "families": ["pool"]},
-    "C13": {"level": "model_checking", "models": [], "families": ["pool"]},
+    "C13": {"level": "model_checking", "models": ["MC_Math"], "families": ["pool"]},
     "C14": {"level": "model_checking", "models": ["MC_Pool", "MC_Exec"], "families": ["pool", "fault"]},
     "C15": {"level": "model_checking", "models": ["MC_Auth"], "families": ["auth", "farm", "pool", "epoch"], "exhaustive": True,
             "assumptions": ["exhaustive refers to the ownership/config/toggle matrix of MC_Auth (every edge replayed); farm- and position-level "
                             "authorisation is judged on the farm/pool traces (C15_* guards), which are sampled"]},
     "C16": {"level": "model_checking", "models": [], "families": ["pool"]},
     "C17": {"level": "model_checking", "models": ["MC_Pool"], "families": ["pool"]},
-    "C19": {"level": "model_checking", "models": [], "families": ["pool"]},
+    "C19": {"level": "model_checking", "models": ["MC_Math"], "families": ["pool"]},
     "C05": {"level": "model_checking", "models": ["MC_FarmLife"], "families": ["farm"]},
     "C06": {"level": "model_checking", "models": ["MC_Farm", "MC_FarmLife"], "families": ["farm"]},
     "C07": {"level": "model_checking", "models": ["MC_Farm"], "families": ["farm"]},
     "C08": {"level": "model_checking", "models": ["MC_FarmLife"], "families": ["farm"]},
-    "C09": {"level": "model_checking", "models": ["MC_FarmLife"], "families": ["farm"]},
+    "C09": {"level": "model_checking", "models": ["MC_FarmLife", "MC_Math"], "families": ["farm"]},
     "C10": {"level": "model_checking", "models": ["MC_Farm"], "families": ["farm"]},
     "C11": {"level": "model_checking", "models": ["MC_FarmLife"], "families": ["farm"]},
     "C18": {"level": "model_checking", "models": ["MC_Epoch"], "families": ["epoch"]},
